@@ -56,7 +56,8 @@ Theorem C17_edge_max_reachable_is_max : forall V E C W u v, cond_ok V E C = true
 Proof. exact edge_max_reachable_is_max. Qed.
 Print Assumptions C17_edge_max_reachable_is_max.
 
-(* cache machine: alias = true is the code as it is (the cached set object itself is returned) *)
+(* cache machine: alias = false = code_alias is the code as it is (an immutable set is returned, mutation attempts are
+   refused); alias = true is the behaviour before /repo a35dc8c (the mutable cached set object itself was returned) *)
 Theorem C17_cache_coherent : forall V E C alias qs,
   (alias = false \/ forallb (fun q => negb (is_mut q)) qs = true) ->
   qrun V E C alias cache0 qs = map (cold_answer V E C) qs.
@@ -71,10 +72,15 @@ Theorem C17_query_sequences_match_graph : forall V E C alias qs,
 Proof. exact query_sequences_match_graph. Qed.
 Print Assumptions C17_query_sequences_match_graph.
 
-(* The full statement "for every sequence, including callers that mutate what they were handed" is false of
-   the code as it is (known finding stDiGraph.reachability:returns-cached-set): *)
-Definition C17_cache_coherent_full_statement : Prop := forall V E C qs,
-  qrun V E C true cache0 qs = map (cold_answer V E C) qs.
+(* The full statement: for EVERY sequence, including callers that try to mutate what they were handed, every answer of
+   the code as it is equals the cold answer. *)
+Theorem C17_cache_coherent_full_statement : forall V E C qs,
+  qrun V E C code_alias cache0 qs = map (cold_answer V E C) qs.
+Proof. exact cache_coherent_code. Qed.
+Print Assumptions C17_cache_coherent_full_statement.
+
+(* Documentation of the old behaviour (fixed finding stDiGraph.reachability:returns-cached-set, /repo a35dc8c): with the
+   switch alias = true the full statement is false. *)
 Theorem C17_cache_alias_refuted :
   cond_ok alias_witness_V alias_witness_E alias_witness_C = true /\
   qrun alias_witness_V alias_witness_E alias_witness_C true cache0 alias_witness_qs
@@ -136,29 +142,40 @@ Proof. exact certificate_ok_opt. Qed.
 Print Assumptions C17_certificate_ok_opt.
 
 (* ------------------------------------------------------------------ bottleneck path and peeling *)
-Theorem C17_max_bottleneck_sound : forall G P S topo (f : edge -> Z) b p,
+(* keyerr: false = code_nosink_keyerror = the code as it is; true = the behaviour before /repo 6d36e70 *)
+Theorem C17_max_bottleneck_sound : forall keyerr G P S topo (f : edge -> Z) b p,
   peel_inputs_ok G P S topo = true -> nonneg G f ->
-  max_bottleneck f (adj_of P) (adj_of S) topo = MBPath b p ->
+  max_bottleneck f (adj_of P) (adj_of S) keyerr topo = MBPath b p ->
   0 < b /\ pairs p <> [] /\ incl (pairs p) G /\ adj_of P (hd 0%N p) = [] /\ adj_of S (last p 0%N) = [] /\
   (forall e, In e (pairs p) -> b <= f e) /\ (exists e, In e (pairs p) /\ f e = b).
 Proof. exact max_bottleneck_sound_checked. Qed.
 Print Assumptions C17_max_bottleneck_sound.
 
-Theorem C17_max_bottleneck_complete : forall G P S topo (f : edge -> Z),
+Theorem C17_max_bottleneck_complete : forall keyerr G P S topo (f : edge -> Z),
   peel_inputs_ok G P S topo = true -> nonneg G f ->
-  max_bottleneck f (adj_of P) (adj_of S) topo = MBNoPath ->
+  max_bottleneck f (adj_of P) (adj_of S) keyerr topo = MBNoPath ->
   forall p, ss_path G p -> exists e, In e (pairs p) /\ f e <= 0.
 Proof. exact max_bottleneck_complete_checked. Qed.
 Print Assumptions C17_max_bottleneck_complete.
 
 Theorem C17_greedy_peeling_explains : forall G P S topo (f : edge -> Z),
-  peel_inputs_ok G P S topo = true -> G <> [] -> nonneg G f -> conserving G f ->
-  exists D, decompose G (adj_of P) (adj_of S) topo f = PeelOK D /\       (* terminates with fuel #positive edges + 1, no KeyError *)
+  peel_inputs_ok G P S topo = true -> nonneg G f -> conserving G f ->
+  exists D, decompose code_nosink_keyerror G (adj_of P) (adj_of S) topo f = PeelOK D /\   (* terminates with fuel #positive edges + 1, no KeyError *)
             (forall e, In e G -> explained D e = f e) /\                  (* path weights add up to the flow on every edge *)
             Forall (fun pw => ss_path G (fst pw) /\ 0 < snd pw) D /\      (* source-to-sink paths, positive weights *)
             (length D <= npos G f)%nat.                                   (* at most #positive edges rounds *)
-Proof. exact greedy_peeling_explains_checked. Qed.
+Proof. exact greedy_peeling_explains_code. Qed.
 Print Assumptions C17_greedy_peeling_explains.
+
+(* for either setting of the switch; the old behaviour needs a graph with at least one edge *)
+Theorem C17_greedy_peeling_explains_switch : forall keyerr G P S topo (f : edge -> Z),
+  peel_inputs_ok G P S topo = true -> keyerr = false \/ G <> [] -> nonneg G f -> conserving G f ->
+  exists D, decompose keyerr G (adj_of P) (adj_of S) topo f = PeelOK D /\
+            (forall e, In e G -> explained D e = f e) /\
+            Forall (fun pw => ss_path G (fst pw) /\ 0 < snd pw) D /\
+            (length D <= npos G f)%nat.
+Proof. exact greedy_peeling_explains_checked. Qed.
+Print Assumptions C17_greedy_peeling_explains_switch.
 
 Theorem C17_explains_ok_correct : forall W D, explains_ok W D = true <-> forall e z, In (e, z) W -> explained D e = z.
 Proof. exact explains_ok_correct. Qed.
@@ -178,8 +195,8 @@ Example C17_nonvacuous_reach :
   is_scc_edge_model exE exC 3%N 1%N = Some true /\ is_scc_edge_model exE exC 3%N 4%N = Some false /\
   is_scc_edge_model exE exC 4%N 3%N = None /\ nodes_reachable_cold exV exC 7%N = None /\
   map snd (edge_max_reachable_all exE exC exW) = [5; 5; 5; 5; 5; 1099511627776] /\
-  qrun exV exE exC true cache0 [QReach 2; QReaching 4; QReach 2; QScc 3 1; QReach 9]%N
-    = map (cold_answer exV exE exC) [QReach 2; QReaching 4; QReach 2; QScc 3 1; QReach 9]%N.
+  qrun exV exE exC code_alias cache0 [QReach 2; QReaching 4; QMut true true 2 0; QReach 2; QScc 3 1; QReach 9]%N
+    = map (cold_answer exV exE exC) [QReach 2; QReaching 4; QMut true true 2 0; QReach 2; QScc 3 1; QReach 9]%N.
 Proof. vm_compute. repeat split; reflexivity. Qed.
 
 (* a DAG: diamond 0 -> {1,2} -> 3 plus 3 -> 4, flow 3+2 *)
@@ -216,6 +233,10 @@ Proof.
     repeat match goal with |- context [(?a =? v)%N] => destruct (N.eqb_spec a v); [congruence|] end. reflexivity.
 Qed.
 
-(* a graph without edges: the code evaluates B[None] (known finding max_bottleneck_path:KeyError:no-edges) *)
-Example C17_peeling_no_edges_keyerror : decompose_run [] [] [] [0]%N = PeelKeyError.
+(* a graph without edges: the code as it is returns ([], []); before /repo 6d36e70 it evaluated B[None] (fixed finding
+   max_bottleneck_path:KeyError:no-edges), which the switch keyerr = true still documents *)
+Example C17_peeling_no_edges : decompose_run [] [] [] [0]%N = PeelOK [] /\ max_bottleneck_run [] [] [] [0]%N = MBNoPath.
+Proof. vm_compute. split; reflexivity. Qed.
+Example C17_peeling_no_edges_keyerror_old_behaviour :
+  decompose true [] (adj_of []) (adj_of []) [0]%N (flow_of []) = PeelKeyError.
 Proof. vm_compute. reflexivity. Qed.
